@@ -55,6 +55,14 @@ def find_guards(fn):
                     lhs = fn.strip(n2["c"][0])
                     if fn.nodes[lhs]["k"] == "ref" and fn.nodes[lhs].get("d") == sizev:
                         grows = True
+                # ... or hands &size to a helper that does
+                if n2["k"] == "call":
+                    for a in n2["c"][1:]:
+                        a0 = fn.strip(a)
+                        if fn.nodes[a0]["k"] == "un" and fn.nodes[a0]["o"] == "&":
+                            tgt = fn.strip(fn.nodes[a0]["c"][0])
+                            if fn.nodes[tgt]["k"] == "ref" and fn.nodes[tgt].get("d") == sizev:
+                                grows = True
             st.extend(s for s in fn.blocks[x].succs if s != b.succs[1])
         if grows:
             out.append((b.id, ivar, K, sizev))
